@@ -367,6 +367,35 @@ func (cr *connRec) foldx(tr *truth, versioned, backendBase bool, report reporter
 		km := m.key(p.Key)
 		extra := map[string]any{"key": p.Key, "version": p.Version, "delta": p.Delta, "via": via, "frame_seq": f.Seq}
 		if !m.subscribed {
+			// Two unsubscribes of one subscription that overlapped (the connection's own
+			// unsubscribe command and a server-side unsubscribe, same virtual instant): the
+			// one that lost the race to remove the channel announces the end (push or reply)
+			// while the winner has not yet torn the keyed state down.
+			if n := len(m.periods); n > 0 && m.periods[n-1].end != 0 {
+				per := m.periods[n-1]
+				for _, g := range frames {
+					if g.Seq <= f.Seq {
+						continue
+					}
+					if g.At != per.endAt {
+						break
+					}
+					if g.Reply != nil && g.Reply.Id != 0 {
+						rec := cr.cmd(g.Reply.Id)
+						if rec != nil && rec.kind == "sub" {
+							break
+						}
+						if rec != nil && rec.kind == "unsub" && g.Reply.Error == nil && per.endKind == "unsub-push" && rec.seq < per.end {
+							rep("c25-key-update-between-unsubscribe-push-and-reply-of-overlapping-unsubscribes", fmt.Sprintf("conn %d: update for key %s (version %d) delivered after the unsubscribe push (frame %d) and before the reply of the connection's own overlapping unsubscribe command (frame %d), all at %v", cr.idx, p.Key, p.Version, per.end, g.Seq, per.endAt), extra)
+							return
+						}
+					}
+					if g.Push != nil && g.Push.Channel == channel && g.Push.Unsubscribe != nil && per.endKind == "unsub-reply" {
+						rep("c25-key-update-between-unsubscribe-push-and-reply-of-overlapping-unsubscribes", fmt.Sprintf("conn %d: update for key %s (version %d) delivered after the reply of the connection's own unsubscribe command (frame %d) and before the unsubscribe push of an overlapping server-side unsubscribe (frame %d), all at %v", cr.idx, p.Key, p.Version, per.end, g.Seq, per.endAt), extra)
+						return
+					}
+				}
+			}
 			rep("c25-key-update-pushed-after-subscription-ended", fmt.Sprintf("conn %d: update for key %s (version %d) delivered via %s after the subscription ended", cr.idx, p.Key, p.Version, via), extra)
 			return
 		}
